@@ -132,7 +132,70 @@ group_impl!(
     false
 );
 
+/// runs every operation under `catch_unwind`: a panic inside a group operation (other than a
+/// child's scripted panic during `poll`, which the caller handles) is logged as `an 99 0`, the
+/// group is considered poisoned and all later operations are skipped.
+pub struct Guarded {
+    inner: Box<dyn GroupDyn>,
+    pub poisoned: bool,
+}
+
+impl Guarded {
+    fn run<T>(&mut self, default: T, f: impl FnOnce(&mut Box<dyn GroupDyn>) -> T) -> T {
+        if self.poisoned {
+            return default;
+        }
+        let inner = &mut self.inner;
+        match std::panic::catch_unwind(std::panic::AssertUnwindSafe(|| f(inner))) {
+            Ok(v) => v,
+            Err(_) => {
+                self.poisoned = true;
+                log("an 99 0".into());
+                default
+            }
+        }
+    }
+}
+
+impl GroupDyn for Guarded {
+    fn poll(&mut self, cx: &mut Context<'_>) -> String {
+        // child panics unwind through here and are caught by `do_poll`
+        if self.poisoned {
+            return "P".into();
+        }
+        self.inner.poll(cx)
+    }
+    fn insert(&mut self, c: usize) -> usize {
+        self.run(usize::MAX, |g| g.insert(c))
+    }
+    fn remove(&mut self, j: usize) -> Option<(usize, bool)> {
+        self.run(None, |g| g.remove(j))
+    }
+    fn reserve(&mut self, k: usize) {
+        self.run((), |g| g.reserve(k))
+    }
+    fn extend(&mut self, cs: &[usize]) -> bool {
+        self.run(false, |g| g.extend(cs))
+    }
+    fn len(&self) -> usize {
+        self.inner.len()
+    }
+    fn is_empty(&self) -> bool {
+        self.inner.is_empty()
+    }
+    fn contains(&mut self, j: usize) -> Option<(usize, bool)> {
+        self.run(None, |g| g.contains(j))
+    }
+    fn capacity(&self) -> usize {
+        self.inner.capacity()
+    }
+}
+
 pub fn build_group(stream: bool, keyed: bool) -> Box<dyn GroupDyn> {
+    Box::new(Guarded { inner: build_group_raw(stream, keyed), poisoned: false })
+}
+
+fn build_group_raw(stream: bool, keyed: bool) -> Box<dyn GroupDyn> {
     match (stream, keyed) {
         (false, false) => Box::new(FPlain {
             g: FutureGroup::new(),
